@@ -1932,6 +1932,8 @@ def call_generator_view(self, c, args, kwargs, st, node):
     st.assume(n >= 0)
     elems = z3.Function(f"gen!{n}", z3.IntSort(), rt.elt.sort())
     pre = State(env, dict(st.heap), st.pc, st.next_ref, st.ghost, st.labels)
+    for p in c.yields_count:      # trusted summaries only (dsl refuses it elsewhere)
+        st.assume(self.spec_truth(p, State(dict(env, count=int_val(n)), st.heap, st.pc, st.next_ref, st.ghost, st.labels), old=pre))
 
     def at(i):
         it = Val(rt.elt, elems(i))
